@@ -7,6 +7,11 @@
 //!         either behaves exactly as on a twin world without the leak, or panics leaving the world
 //!         exactly as it was before the operation.
 //!
+//! clonefrom (C10, C13): dst.clone_from(&src) between two worlds that diverged (sometimes from a common clone, so that
+//!         capacities, lengths and versions coincide), sometimes with a component Clone panicking part-way: without a panic
+//!         dst answers exactly like src; after a caught panic dst is consistent (every listed entity resolves to itself, len()
+//!         is the number listed, no handle reaches a row that is not its own), and nothing is dropped twice.
+//!
 //! Output: lines `ok <scenario>` / `FAIL <scenario> <what>`; exit code 1 if any FAIL.
 #![forbid(unsafe_code)]
 use gecs::prelude::*;
@@ -23,6 +28,7 @@ struct Reg {
     lease_clones: u64,
     marker_clones: u64,
     plain_clones: u64,
+    clone_panic_in: u64,
 }
 thread_local! { static REG: RefCell<Reg> = RefCell::new(Reg::default()); }
 fn reg<R>(f: impl FnOnce(&mut Reg) -> R) -> R { REG.with(|r| f(&mut r.borrow_mut())) }
@@ -32,7 +38,10 @@ pub struct Tracked { id: u64, pub val: u32 }
 impl Tracked {
     fn new(val: u32) -> Self { let id = reg(|r| { r.next += 1; let id = r.next; r.live.insert(id); id }); Tracked { id, val } }
 }
-impl Clone for Tracked { fn clone(&self) -> Self { reg(|r| r.tracked_clones += 1); Tracked::new(self.val) } }
+impl Clone for Tracked { fn clone(&self) -> Self {
+    let fire = reg(|r| { r.tracked_clones += 1; if r.clone_panic_in > 0 { r.clone_panic_in -= 1; r.clone_panic_in == 0 } else { false } });
+    if fire { panic!("injected Clone panic"); }
+    Tracked::new(self.val) } }
 impl Drop for Tracked { fn drop(&mut self) { let id = self.id; reg(|r| if !r.live.remove(&id) { r.double_drops += 1 }) } }
 
 /// no drop glue, Clone with a side effect (a fresh identity per clone)
@@ -135,6 +144,65 @@ fn clone_scenario(seed: u64, fails: &mut Vec<String>) {
     if live != 0 || dd != 0 { fails.push(format!("{} after dropping both worlds: {} values leaked, {} double drops", name, live, dd)); reg(|r| { r.live.clear(); r.double_drops = 0; }); }
 }
 
+/// Every handle of [hs] either is rejected or reaches a row whose stored handle is itself (and the same through iteration).
+fn handles_sound(t: &mut Twin, ha: &[Entity<ArchA>], hb: &[Entity<ArchB>]) -> Option<String> {
+    for e in ha.iter() {
+        // a handle of another lineage may trip the documented debug assertion (slot beyond the capacity): that is a clean refusal
+        if catch_unwind(AssertUnwindSafe(|| t.world.arch_a.contains(*e))).unwrap_or(false) {
+            match t.world.arch_a.borrow(*e) { Some(b) => if b.entity() != e { return Some(format!("handle {:?} reaches the row of {:?}", e, b.entity())); }, None => return Some(format!("contains({:?}) but borrow gives None", e)) }
+        }
+    }
+    for e in hb.iter() {
+        if catch_unwind(AssertUnwindSafe(|| t.world.arch_b.contains(*e))).unwrap_or(false) {
+            match t.world.arch_b.borrow(*e) { Some(b) => if b.entity() != e { return Some(format!("handle {:?} reaches the row of {:?}", e, b.entity())); }, None => return Some(format!("contains({:?}) but borrow gives None", e)) }
+        }
+    }
+    let listed_b: Vec<_> = t.world.arch_b.iter_mut().map(|v| *v.0).collect();
+    if listed_b.len() != t.world.arch_b.len() { return Some("len() of the second archetype differs from the number of entities".into()); }
+    for e in listed_b { if !t.world.arch_b.contains(e) { return Some(format!("listed entity {:?} does not resolve", e)); } }
+    consistent(t)
+}
+
+fn clone_from_scenario(seed: u64, fails: &mut Vec<String>) {
+    let name = format!("clone_from seed={}", seed);
+    let mut rng = Lcg(seed ^ 0x51ed);
+    let mut src = Twin { world: EcsWorld::default(), a: vec![], b: vec![] };
+    for op in gen_ops(&mut rng, 8 + (seed % 16) as usize) { apply(&mut src, &op); }
+    // the destination: a clone of src that then diverges by a few operations, or an unrelated world
+    let mut dst = if seed % 3 != 0 { Twin { world: src.world.clone(), a: src.a.clone(), b: src.b.clone() } } else { Twin { world: EcsWorld::default(), a: vec![], b: vec![] } };
+    for op in gen_ops(&mut rng, (seed % 7) as usize) { apply(&mut dst, &op); }
+    for op in gen_ops(&mut rng, (seed % 5) as usize) { apply(&mut src, &op); }
+    let live_comps = (src.world.arch_a.len() + src.world.arch_b.len()) as u64;
+    let arm = if seed % 2 == 0 { 0 } else { 1 + rng.below(live_comps.max(1)) };
+    reg(|r| r.clone_panic_in = arm);
+    let (old_a, old_b) = (dst.a.clone(), dst.b.clone());
+    let r = { let (d, s) = (&mut dst.world, &src.world); catch_unwind(AssertUnwindSafe(|| d.clone_from(s))) };
+    reg(|r| r.clone_panic_in = 0);
+    match r {
+        Ok(()) => {
+            dst.a = src.a.clone(); dst.b = src.b.clone();
+            let (s1, s2) = (snapshot(&mut src), snapshot(&mut dst));
+            if s1 != s2 { fails.push(format!("{} after clone_from the destination answers differently from the source", name)); }
+            if let Some(b) = handles_sound(&mut dst, &old_a, &old_b) { fails.push(format!("{} after clone_from: {}", name, b)); }
+        }
+        Err(_) => {
+            let all_a: Vec<_> = old_a.iter().chain(src.a.iter()).cloned().collect();
+            let all_b: Vec<_> = old_b.iter().chain(src.b.iter()).cloned().collect();
+            let chk = catch_unwind(AssertUnwindSafe(|| handles_sound(&mut dst, &all_a, &all_b)));
+            match chk {
+                Err(_) => fails.push(format!("{} after a Clone panic inside clone_from (armed at call {}) the destination cannot be used (it panics)", name, arm)),
+                Ok(Some(b)) => fails.push(format!("{} after a Clone panic inside clone_from (armed at call {}): {}", name, arm, b)),
+                Ok(None) => {}
+            }
+        }
+    }
+    let panicked = r.is_err();
+    let dr = catch_unwind(AssertUnwindSafe(move || { drop(dst); drop(src); }));
+    let (live, dd) = reg(|r| (r.live.len(), r.double_drops));
+    if dr.is_err() || dd != 0 || (!panicked && live != 0) { fails.push(format!("{} after dropping both worlds: {} values leaked, {} double drops{}", name, live, dd, if dr.is_err() { ", drop panicked" } else { "" })); }
+    reg(|r| { r.live.clear(); r.double_drops = 0; });
+}
+
 fn leak_scenario(seed: u64, which: u32, fails: &mut Vec<String>) {
     let name = format!("leak seed={} guard={}", seed, which);
     let mut rng = Lcg(seed ^ 0x9e37);
@@ -176,7 +244,7 @@ fn leak_scenario(seed: u64, which: u32, fails: &mut Vec<String>) {
 }
 
 fn main() {
-    std::panic::set_hook(Box::new(|_| {}));
+    if std::env::var("SIDE_VERBOSE").is_err() { std::panic::set_hook(Box::new(|_| {})); }
     let args: Vec<String> = std::env::args().collect();
     let seed: u64 = args.get(1).map(|s| s.parse().unwrap()).unwrap_or(1);
     let n: u64 = args.get(2).map(|s| s.parse().unwrap()).unwrap_or(40);
@@ -186,6 +254,9 @@ fn main() {
     let c = fails.len();
     for k in 0..n { leak_scenario(seed * 1000 + k, (k % 6) as u32, &mut fails); }
     println!("leak scenarios {} failures {}", n, fails.len() - c);
+    let c2 = fails.len();
+    for k in 0..n { clone_from_scenario(seed * 1000 + k, &mut fails); }
+    println!("clonefrom scenarios {} failures {}", n, fails.len() - c2);
     for f in fails.iter().take(12) { println!("FAIL {}", f); }
     std::process::exit(if fails.is_empty() { 0 } else { 1 });
 }
